@@ -17,19 +17,25 @@ EXTENDS Frontend, TLC, Json, IOUtils, SequencesExt
 CONSTANTS MaxT,        \* start, end \in 0..MaxT
           MaxStep,     \* step \in 1..MaxStep
           MaxIv,       \* interval \in 1..MaxIv
-          EqT          \* scope of the arithmetic = set equivalence check
+          EqT,         \* scope of the arithmetic = set equivalence check
+          DynLevel     \* which dynamic split configurations <<min, max, horizontal shards>> are explored
 
-VARIABLES kind, s, e, st, iv,   \* the request (inputs, never change)
+Dyns == IF DynLevel = 0 THEN {<<2, 4, 2>>, <<3, 5, 2>>}
+        ELSE {<<2, 4, 2>>, <<3, 5, 2>>, <<3, 8, 3>>, <<4, 6, 4>>, <<5, 12, 2>>, <<6, 9, 5>>}
+
+VARIABLES kind, s, e, st, iv,   \* the request (inputs, never change); iv = static or dynamically computed interval
+          dyn,                  \* <<0,0,0>> = static interval, else the dynamic configuration iv came from
           cur,                  \* loop variable `start`
           out,                  \* sub-requests appended so far
           done
-vars == <<kind, s, e, st, iv, cur, out, done>>
+vars == <<kind, s, e, st, iv, dyn, cur, out, done>>
 
 Init ==
     /\ kind \in {"range", "meta"}
     /\ s \in 0..MaxT /\ e \in 0..MaxT /\ s <= e
-    /\ iv \in 1..MaxIv
     /\ st \in (IF kind = "range" THEN 1..MaxStep ELSE {1})
+    /\ \/ dyn = <<0, 0, 0>> /\ iv \in 1..MaxIv
+       \/ kind = "range" /\ dyn \in Dyns /\ iv = DynInterval(e - s, dyn[1], dyn[2], dyn[3])
     /\ cur = s /\ out = <<>> /\ done = FALSE
 
 (* `if start == end { one request }` (both request families).  *)
@@ -37,26 +43,26 @@ Single ==
     /\ ~done /\ s = e /\ out = <<>>
     /\ out' = <<[start |-> s, end |-> s, step |-> st]>>
     /\ done' = TRUE
-    /\ UNCHANGED <<kind, s, e, st, iv, cur>>
+    /\ UNCHANGED <<kind, s, e, st, iv, dyn, cur>>
 
 (* One iteration of `for ; start < end; start = nextIntervalBoundary(start) + step`.  *)
 RangeIter ==
     /\ ~done /\ kind = "range" /\ s # e /\ cur < e
     /\ out' = Append(out, RangeIterSub(cur, e, st, iv))
     /\ cur' = RangeIterNext(cur, st, iv)
-    /\ UNCHANGED <<kind, s, e, st, iv, done>>
+    /\ UNCHANGED <<kind, s, e, st, iv, dyn, done>>
 
 (* One iteration of `for start < end; start += dur`.  *)
 MetaIter ==
     /\ ~done /\ kind = "meta" /\ s # e /\ cur < e
     /\ out' = Append(out, [start |-> cur, end |-> Min2(cur + iv, e), step |-> 1])
     /\ cur' = cur + iv
-    /\ UNCHANGED <<kind, s, e, st, iv, done>>
+    /\ UNCHANGED <<kind, s, e, st, iv, dyn, done>>
 
 Exit ==
     /\ ~done /\ s # e /\ cur >= e
     /\ done' = TRUE
-    /\ UNCHANGED <<kind, s, e, st, iv, cur, out>>
+    /\ UNCHANGED <<kind, s, e, st, iv, dyn, cur, out>>
 
 Next == Single \/ RangeIter \/ MetaIter \/ Exit
 Spec == Init /\ [][Next]_vars
@@ -71,6 +77,9 @@ C41_MetaCovers       == (done /\ kind = "meta") => CoversSet(s, e, out)
 (* finite, and no unfinished state is stuck -- hence every behaviour reaches done.             *)
 C41_Progress         == [][(~done' /\ s # e) => cur' > cur]_vars
 C41_NotStuck         == ~done => ENABLED Next
+(* the dynamically computed interval is usable (positive) and within the configured bounds whenever the *)
+(* query is longer than the minimum                                                                    *)
+C41_DynIntervalSane  == dyn # <<0, 0, 0>> => (iv >= 1 /\ iv <= dyn[2] /\ (e - s <= dyn[1] => iv = dyn[1]))
 (* the step-wise machine equals the functional transcription used for model conformance in the trace spec *)
 FunctionalFormAgrees == done => out = (IF kind = "range" THEN SplitRange(s, e, st, iv) ELSE SplitMeta(s, e, iv))
 (* the arithmetic forms agree with the literal ones on what the code produces ...  *)
@@ -90,9 +99,13 @@ ASSUME ArithEqualsSet
 
 (* ---- leg B: every input of the model goes to the harness ---- *)
 CasesFile == IF "VERIF_CASES" \in DOMAIN IOEnv THEN IOEnv.VERIF_CASES ELSE "cases.ndjson"
+NoDyn == [min |-> 0, max |-> 0, shards |-> 0]
 CaseSet ==
-    { [kind |-> "range", s |-> a, e |-> b, step |-> c, iv |-> d] :
+    { [kind |-> "range", s |-> a, e |-> b, step |-> c, iv |-> d, dyn |-> NoDyn] :
           a \in 0..MaxT, b \in 0..MaxT, c \in 1..MaxStep, d \in 1..MaxIv }
-    \cup { [kind |-> "meta", s |-> a, e |-> b, step |-> 1, iv |-> d] : a \in 0..MaxT, b \in 0..MaxT, d \in 1..MaxIv }
+    \cup { [kind |-> "meta", s |-> a, e |-> b, step |-> 1, iv |-> d, dyn |-> NoDyn] : a \in 0..MaxT, b \in 0..MaxT, d \in 1..MaxIv }
+    \cup { [kind |-> "range", s |-> a, e |-> b, step |-> c, iv |-> DynInterval(b - a, y[1], y[2], y[3]),
+            dyn |-> [min |-> y[1], max |-> y[2], shards |-> y[3]]] :
+          a \in { x \in 0..MaxT : x % 3 = 0 \/ x = 1 }, b \in 0..MaxT, c \in 1..MaxStep, y \in Dyns }
 ASSUME ndJsonSerialize(CasesFile, SetToSeq({ c \in CaseSet : c.s <= c.e }))
 =============================================================================
